@@ -33,10 +33,8 @@ def _proj_value(v, proj):
         if k == "Deref":
             if v[0] == "ref":
                 v = v[1]
-            elif v[0] in ("arg", "call", "proj", "undef"):
-                v = ("deref", v)
             else:
-                raise Unsupported("deref of %s" % (v[0],))
+                v = ("deref", v)          # a reference we did not see being taken (argument, constant, call result): an opaque place
         elif k == "Downcast":
             v = ("downcast", v, e["variant"], e.get("idx"))
         elif k == "Field":
@@ -58,7 +56,7 @@ def _proj_value(v, proj):
             elif v[0] == "tuple":
                 v = v[1][e["idx"]]
             else:
-                v = ("field", v, e["idx"])
+                v = ("field", v, e.get("name", e["idx"]))
         else:
             raise Unsupported("projection %s" % k)
     if v[0] == "downcast":
@@ -134,7 +132,8 @@ def _switch_key(v):
     return v, neg
 
 
-def paths(body, ctor_prefixes=()):
+def paths(body, ctor_prefixes=(), option_like=None):
+    """option_like(value) -> True when a discriminant switch on `value` has exactly the outcomes 0 (None) / 1 (Some)"""
     blocks = body["blocks"]
     done, reason = [], None
     work = [(0, State())]
@@ -171,7 +170,7 @@ def paths(body, ctor_prefixes=()):
                         raise Unsupported("terminator %s without target" % k)
                     continue
                 if k == "Return":
-                    done.append((st.events, st.env.get(0, ("undef",)), st.nexts, frozenset(st.valid)))
+                    done.append((st.events, st.env.get(0, ("undef",)), st.nexts, frozenset(st.valid), dict(st.assume)))
                     break
                 if k == "Unreachable":
                     break
@@ -195,7 +194,29 @@ def paths(body, ctor_prefixes=()):
                         continue
                     # fork: one successor per explicit value; `otherwise` stands for "the other value" of a two-valued subject
                     vals = [v for v, b in t["targets"]]
-                    two = (subj[0] == "discr" and subj[1][0] in ("next", "branch", "tv")) or subj[0] == "in01"
+                    if subj[0] == "isvar":
+                        # `x.is_some()` / `x.is_none()`: a bool that stands for the discriminant of x
+                        inner = ("discr", subj[1])
+                        if inner in st.assume:
+                            truth = (st.assume[inner] == 1) == (subj[2] == "Some")
+                            c = (0 if truth else 1) if neg else (1 if truth else 0)
+                            nxt = [b for v, b in t["targets"] if v == c]
+                            bi = nxt[0] if nxt else t["otherwise"]
+                            continue
+                        vals = [v for v, b in t["targets"]]
+                        succ = list(t["targets"])
+                        if len(vals) == 1:
+                            succ.append((1 - vals[0], t["otherwise"]))
+                        elif sorted(vals) != [0, 1]:
+                            raise Unsupported("switch values %s" % vals)
+                        for v, b in succ:
+                            s2 = st.fork()
+                            truth = (v == 0) if neg else (v == 1)
+                            s2.assume[inner] = (1 if truth else 0) if subj[2] == "Some" else (0 if truth else 1)
+                            work.append((b, s2))
+                        break
+                    two = (subj[0] == "discr" and subj[1][0] in ("next", "branch", "tv")) or subj[0] == "in01" \
+                        or (subj[0] == "discr" and option_like is not None and option_like(subj[1]))
                     if not two:
                         raise Unsupported("switch on %s" % (subj[0],))
                     succ = list(t["targets"])
@@ -230,6 +251,8 @@ def paths(body, ctor_prefixes=()):
                         val = ("tv", args[0][1])
                     elif name == "is_in_01" and len(args) == 1 and args[0][0] == "ref":
                         val = ("in01", args[0][1])
+                    elif name in ("is_some", "is_none") and len(args) == 1 and args[0][0] == "ref" and ("option::Option" in path):
+                        val = ("isvar", args[0][1], "Some" if name == "is_some" else "None")
                     elif name == "branch" and len(args) == 1:
                         a = args[0]
                         if a[0] == "agg" and a[2] == "Ok":
